@@ -6,7 +6,7 @@ shift
 IDS=${@:-$(python3 -c "import sys; sys.path.insert(0,'vlib'); import props; print(' '.join(sorted(props.PROPS)))")}
 for id in $IDS; do
   s=$(date +%s)
-  ./check $id --tier $TIER > /var/tmp/runall.$id.out 2>&1
+  ./check $id --tier $TIER > /var/tmp/runall.$TIER.$id.out 2>&1
   rc=$?
   echo "$id rc=$rc wall=$(( $(date +%s) - s ))s" | tee -a /var/tmp/runall.summary
 done
